@@ -6,7 +6,7 @@ input would be a wrong oracle).   usage: run_harmless.py [id ...] [--checks=C01,
 import json, os, shutil, subprocess, sys, tempfile
 ROOT = os.path.dirname(os.path.dirname(os.path.abspath(__file__)))
 H = os.path.join(ROOT, "harmless")
-AREA = {"parser": ["C01", "C02", "C03", "C08", "C09", "C12", "C13", "C15", "C16"],
+AREA = {"bodystruct": ["C17"], "parser": ["C01", "C02", "C03", "C08", "C09", "C12", "C13", "C15", "C16"],
         "builders": ["C10", "C14", "C16"],
         "client": ["C04", "C05", "C06", "C07", "C11"]}
 args = [a for a in sys.argv[1:] if not a.startswith("--")]
